@@ -187,6 +187,7 @@ func genSQLText(r *rng, n int, tier string, emit func(J)) {
 			}
 			if row.ep != "logs.list" && row.ep != "accounts.get" && (row.api == "v2" || row.key == "query") {
 				c["wrap"] = r.pick(wraps)
+				c["sib"] = r.pick([]string{"meta", "bound"})
 			}
 			ex := []any{}
 			if r.p(30) {
